@@ -9,7 +9,7 @@
      [op |-> "LOG", t]                             LOG3 with topics (t, CALLER, CALLVALUE) at address ctx
      [op |-> "CALL", kind, to, val, gas]           kind in CALL | CALLCODE | DELEGATECALL | STATICCALL, val in 0..1,
                                                    gas in "all" (everything EIP-150 allows) | "none" (0 gas)
-     [op |-> "CREATE", init]                       CREATE with value 0 running the script init as constructor
+     [op |-> "CREATE", kind, init, val]            kind in CREATE | CREATE2, endowment val in 0..1, constructor script init
      [op |-> "SELFDESTRUCT", to]                   to in contract | "SELF" | "X" (an address that does not exist)
      [op |-> "RETURN"] [op |-> "REVERT"] [op |-> "INVALID"] [op |-> "STOP"]        (end of script = STOP)
 
@@ -52,7 +52,7 @@ InitState(mode, prog) ==
    code |-> [a \in AllAddr |-> IF a \in Contracts THEN prog.code[a] ELSE <<>>],
    dead |-> {},
    logs |-> <<>>, masters |-> <<>>, xfers |-> <<>>]
-InitGhost == [frames |-> <<>>, flags |-> <<>>, nc |-> 0]
+InitGhost == [frames |-> <<>>, flags |-> <<>>, nc |-> 0, reuse |-> ""]
 
 Alive(S, a) == S.hascode[a] \/ S.master[a]
 Exists(S, a) == Alive(S, a) \/ S.bal[a] > 0
@@ -117,7 +117,7 @@ Enter(ch, S0, S1, G) ==
       fr == [ch EXCEPT !.id = id]
       res == IF fr.starved /\ NeedsGas(fr.script) THEN Fail(StarvedClass(fr.script), S1, G1)
              ELSE Run(fr, 1, S1, G1)
-      Sok == IF fr.kind = "CREATE" /\ res.ret = "data" THEN [res.S EXCEPT !.hascode[fr.ctx] = TRUE] ELSE res.S
+      Sok == IF fr.kind \in {"CREATE", "CREATE2"} /\ res.ret = "data" THEN [res.S EXCEPT !.hascode[fr.ctx] = TRUE] ELSE res.S
       Sout == IF res.class = "ok" THEN Sok ELSE IF Bug = "norevert" /\ res.class = "revert" THEN res.S ELSE S0
       G2 == [res.G EXCEPT !.frames[id].class = res.class, !.frames[id].same = (Sout = S0)]
   IN [class |-> res.class, S |-> Sout, G |-> G2]
@@ -142,17 +142,30 @@ DoCall(fr, st, S, G) ==
               r == Enter(ch, S, S1, G)
           IN [S |-> r.S, G |-> AddFlag(r.G, fr, kind, st.to, IF r.class = "ok" THEN 1 ELSE 0)]
 
+\* CREATE / CREATE2 with an endowment of st.val wei.  A creation needing more value than the creator owns pushes 0 without
+\* entering a frame.  Otherwise the endowment moves INSIDE the creation's snapshot: a failing constructor gives it back.
+\* Names N1, N2, .. follow the addresses: a CREATE that fails for lack of balance does not consume its address (the
+\* creation counter / nonce is not bumped) and the next CREATE gets it again (G.reuse) unless a creation of either
+\* kind got past that point in between; CREATE2 addresses are salted per step and always new here.
 DoCreate(fr, st, S, G) ==
-  LET n == G.nc + 1
-      new == NewName(n)
+  LET fresh == st.kind = "CREATE2" \/ G.reuse = ""
+      new == IF fresh THEN NewName(G.nc + 1) ELSE G.reuse
+      G0 == IF fresh THEN [G EXCEPT !.nc = @ + 1] ELSE G
+      v == st.val
       cid == Len(G.frames) + 1
-      ch == [kind |-> "CREATE", id |-> 0, parent |-> fr.id, depth |-> fr.depth + 1, from |-> fr.ctx, codeaddr |-> new,
-             ctx |-> new, sender |-> fr.ctx, value |-> 0, static |-> FALSE, script |-> st.init, starved |-> FALSE]
+      ch == [kind |-> st.kind, id |-> 0, parent |-> fr.id, depth |-> fr.depth + 1, from |-> fr.ctx, codeaddr |-> new,
+             ctx |-> new, sender |-> fr.ctx, value |-> v, static |-> FALSE, script |-> st.init, starved |-> FALSE]
       \* thor extension (runtime.OnCreateContract): master := creator and a $Master event, inside the snapshot
-      S1 == [S EXCEPT !.master[new] = TRUE, !.masters = Append(@, [addr |-> new, creator |-> fr.ctx, by |-> cid])]
-      r == Enter(ch, S, S1, [G EXCEPT !.nc = n])
-  IN IF n > MaxNew THEN Assert(FALSE, "program creates more contracts than MaxNew")
-     ELSE [S |-> r.S, G |-> AddFlag(r.G, fr, "CREATE", new, IF r.class = "ok" THEN 1 ELSE 0)]
+      Sm == [S EXCEPT !.master[new] = TRUE, !.masters = Append(@, [addr |-> new, creator |-> fr.ctx, by |-> cid])]
+      S1 == IF v > 0
+            THEN [Sm EXCEPT !.bal[fr.ctx] = @ - v, !.bal[new] = @ + v,
+                            !.xfers = Append(@, [from |-> fr.ctx, to |-> new, amt |-> v, by |-> cid])]
+            ELSE Sm
+      r == Enter(ch, S, S1, [G0 EXCEPT !.reuse = ""])
+  IN IF fresh /\ G.nc + 1 > MaxNew THEN Assert(FALSE, "program creates more contracts than MaxNew")
+     ELSE IF v > S.bal[fr.ctx]
+     THEN [S |-> S, G |-> AddFlag(IF st.kind = "CREATE" THEN [G0 EXCEPT !.reuse = new] ELSE G0, fr, st.kind, new, 0)]
+     ELSE [S |-> r.S, G |-> AddFlag(r.G, fr, st.kind, new, IF r.class = "ok" THEN 1 ELSE 0)]
 
 \* end of the transaction
 Finalize(S) ==
